@@ -81,8 +81,8 @@ Definition ds (ty : sdptype) (id : N) : desc := {| d_ty := ty; d_txt := tx id |}
 (* offerer: create, set-local; a rejected stale offer and a remote pranswer in
    between; remote answer *)
 Example c01_offerer_history :
-  let ops := [OCreateOffer 16] in
-  let mid := [OSetLocal (ds Offer 99); OSetRemote (ds Pranswer 48); OCreateOffer 64] in
+  let ops := [OCreateOffer 16 true] in
+  let mid := [OSetLocal (ds Offer 99); OSetRemote (ds Pranswer 48); OCreateOffer 64 true] in
   exists n1 n3,
     step (run ops) (OSetLocal (ds Offer 16)) = (n1, Ok tt) /\
     never_stable as_is n1 mid /\
@@ -97,7 +97,7 @@ Qed.
 
 (* answerer, with a local pranswer and an empty-text answer (JSEP 5.4) *)
 Example c01_answerer_history :
-  let mid := [OCreateAnswer 32 true; OSetLocal (ds Pranswer 32); OSetRemote (ds Offer 16)] in
+  let mid := [OCreateAnswer 32 true true; OSetLocal (ds Pranswer 32); OSetRemote (ds Offer 16)] in
   exists n1 n3,
     step (run []) (OSetRemote (ds Offer 16)) = (n1, Ok tt) /\
     never_stable as_is n1 mid /\
